@@ -324,6 +324,17 @@ def name_spec(docs_dir: Path | None = None) -> dict:
         spec["perf"] = {"keep_exact_lower": names, "forbid_exact_lower": names}
     else:
         problems.append("performance-linter.md: `Variables named:` line not found")
+    # performance: the regex rule is defined by the module name and the function names the document lists
+    # ("**Regex detection:**" - `re.match()` ..., `re.compile()` for the fix): these identifiers keep their names
+    rx = re.search(r"\*\*Regex detection:\*\*\n((?:- `\w+\.\w+\(\)`\n)+)", t)
+    if rx and "re.compile()" in t:
+        pairs = re.findall(r"`(\w+)\.(\w+)\(\)`", rx.group(1))
+        rx_names = sorted({a for a, _ in pairs} | {b for _, b in pairs} | {"compile"})
+        spec.setdefault("perf", {})
+        spec["perf"]["keep_exact_lower"] = list(spec["perf"].get("keep_exact_lower", [])) + rx_names
+        spec["perf"]["forbid_exact_lower"] = list(spec["perf"].get("forbid_exact_lower", [])) + rx_names
+    else:
+        problems.append("performance-linter.md: `**Regex detection:**` list not found")
     # improper-logging: conditional-verbose is defined by verbose-like conditions around logger / logging calls
     t = text_of("improper-logging")
     if "verbose-like conditions" in t and "if verbose:" in t and "logger.debug()" in t:
